@@ -30,6 +30,7 @@ class C14(TieCheck):
         "model: coq/C14/Model.v transliterates recorder (response_writer.go:81-288) and String/Blob/Stream/Redirect (context.go:295-327); coq/C14/ModelFixed.v = the same with proposed_fixes/C14_readfrom.patch; spec: coq/C14/Spec.v",
         "the underlying http.ResponseWriter is an explicit automaton with an arbitrary answer policy (universally quantified in the theorems); the harness instantiates it with recording writers of 10 kinds",
         "net/http's Redirect body and fmt.Fprintf formatting are oracles: the harness passes the bytes they produce to the model",
+        "nested routers: coq/C14/Nested.v stacks the child's recorder (same transliteration) on the parent's recorder of Model.v; tied by the nested stream of the harness (child router served through the parent's Context.Writer(), observed from the parent's writer)",
     ]
     assumptions = [
         "an underlying io.ReaderFrom behaves like io.Copy onto its own Write (as net/http's response.ReadFrom does); an underlying io.StringWriter behaves like its Write",
